@@ -158,7 +158,7 @@ fn start_watchdog() -> std::time::Instant {
 
 fn child_main(rest: &[String]) {
     // child <jobfile> <start> <end> <prelude 0|1>
-    let jobs: Vec<String> = std::fs::read_to_string(&rest[0]).expect("job file").lines().map(|s| s.to_string()).collect();
+    let jobs: Vec<String> = std::fs::read_to_string(&rest[0]).expect("job file").lines().map(|s| s.replace('\u{1}', "\n")).collect();
     let start: usize = rest[1].parse().unwrap();
     let end: usize = rest[2].parse().unwrap();
     let prelude = rest[3] == "1";
@@ -170,7 +170,7 @@ fn child_main(rest: &[String]) {
             vm = new_vm(prelude);
         }
         CURRENT.store(i as u64, Ordering::SeqCst);
-        DEADLINE_MS.store(t0.elapsed().as_millis() as u64 + 20_000, Ordering::SeqCst);
+        DEADLINE_MS.store(t0.elapsed().as_millis() as u64 + 60_000, Ordering::SeqCst);
         {
             let mut o = out.lock();
             writeln!(o, "B {}", i).unwrap();
@@ -683,6 +683,23 @@ fn tuples(sig: &[Ty], thorough: bool, rng: &mut Rng, cap: usize, nrand: usize) -
     }
     drop(push);
     // cap the boundary family by a seeded sample (keeps the run inside the tier's budget)
+    // rare corner points are never sampled away
+    let core_int = [MIN, -1, 0, 1, 2, 36, 37, 63, 64, 99, MAX, (1 << 32) + 2, (1 << 32) + 37];
+    let core_byte = [0u8, 1, 2, 7, 8, 255];
+    let is_core = |t: &Vec<Arg>| {
+        t.iter().all(|a| match a {
+            Arg::Int(i) => core_int.contains(i),
+            Arg::Byte(b) => core_byte.contains(b),
+            Arg::Char(c) => ['a', '9', '\u{e9}'].contains(c),
+            _ => false,
+        })
+    };
+    let mut core: Vec<(Vec<Arg>, &'static str)> = vec![];
+    if out.len() > cap {
+        let (c, rest): (Vec<_>, Vec<_>) = out.into_iter().partition(|(t, _)| is_core(t));
+        core = c.into_iter().map(|(t, _)| (t, "corner")).collect();
+        out = rest;
+    }
     if out.len() > cap {
         let mut keep: Vec<(Vec<Arg>, &'static str)> = vec![];
         let n = out.len();
@@ -698,6 +715,7 @@ fn tuples(sig: &[Ty], thorough: bool, rng: &mut Rng, cap: usize, nrand: usize) -
         }
         out = keep;
     }
+    out.extend(core);
     // random tuples from the seed
     for _ in 0..nrand {
         let mut v = vec![];
@@ -773,13 +791,23 @@ fn case_src(module: &str, name: &str, args: &[Arg]) -> String {
         s.push_str("let c06fp = import! std.float.prim in ");
     }
     s.push_str(&format!("let c06m = import! {} in ", module));
+    let call = {
+        let mut c = format!("c06m.{}", name);
+        for b in &body {
+            c.push(' ');
+            c.push_str(b);
+        }
+        c
+    };
     if let Some(Arg::Buf(content)) = args.iter().find(|a| matches!(a, Arg::Buf(_))) {
-        s.push_str(&format!("let c06buf = c06m.new () in let _ = c06m.push_str c06buf {} in ", str_lit(content)));
-    }
-    s.push_str(&format!("c06m.{}", name));
-    for b in body {
-        s.push(' ');
-        s.push_str(&b);
+        // (push, call) in one tuple: fields are evaluated left to right and both are used
+        s.push_str(&format!(
+            "let c06buf = c06m.new () in match (c06m.push_str c06buf {}, {}) with | (_, c06r) -> c06r",
+            str_lit(content),
+            call
+        ));
+    } else {
+        s.push_str(&call);
     }
     s
 }
@@ -796,6 +824,11 @@ fn signatures(table: &gvh::tr::primtable::Table) -> BTreeMap<(String, String), V
     mods.sort();
     mods.dedup();
     for m in mods {
+        if m == "std.path.prim" || m == "std.fs.prim" {
+            // need the prelude and `std.fs.prim` loaded first (importing std.path.prim on its own
+            // panics: see the `import:` program); driven through std.path / std.fs in os_programs
+            continue;
+        }
         // std.path.prim / std.fs.prim need the prelude (std.path.types derives Show/Eq)
         for prelude in [false, true] {
             let vm = new_vm(prelude);
@@ -822,8 +855,8 @@ fn program_pool() -> Vec<(String, bool)> {
         // succeeding
         ("1 #Int+ 2", true),
         ("let f x = x #Int* 2 in f 21", true),
-        ("let rec sum n acc = if n #Int== 0 then acc else sum (n #Int- 1) (acc #Int+ n) in sum 1000 0", true),
-        ("let rec fib n = if n #Int< 2 then n else fib (n #Int- 1) #Int+ fib (n #Int- 2) in fib 15", true),
+        ("rec let sum n acc = if n #Int== 0 then acc else sum (n #Int- 1) (acc #Int+ n) in sum 1000 0", true),
+        ("rec let fib n = if n #Int< 2 then n else fib (n #Int- 1) #Int+ fib (n #Int- 2) in fib 15", true),
         ("{ a = 1, b = \"two\", c = [1, 2, 3] }", true),
         ("let m = import! std.int.prim in m.wrapping_add 9223372036854775807 1", true),
         ("let s = import! std.string.prim in s.slice \"h\u{e9}llo\" 1 3", true),
@@ -832,7 +865,7 @@ fn program_pool() -> Vec<(String, bool)> {
         ("let a = import! std.array.prim in a.index (a.slice [1, 2, 3, 4] 1 3) 1", true),
         ("let r = { f = \\x -> x #Int+ 1 } in r.f 41", true),
         ("type T = | A Int | B in match A 3 with | A x -> x | B -> 0", true),
-        ("let rec build n acc = if n #Int== 0 then acc else build (n #Int- 1) ((import! std.string.prim).append acc \"x\") in (import! std.string.prim).len (build 200 \"\")", true),
+        ("rec let build n acc = if n #Int== 0 then acc else build (n #Int- 1) ((import! std.string.prim).append acc \"x\") in (import! std.string.prim).len (build 200 \"\")", true),
         ("let c = import! std.char.prim in c.to_digit 'f' 16", true),
         ("1.5 #Float* 2.0", true),
         // failing: compile time
@@ -855,10 +888,10 @@ fn program_pool() -> Vec<(String, bool)> {
         ("let s = import! std.string.prim in s.char_at \"abc\" 3", false),
         ("let s = import! std.string.prim in s.split_at \"abc\" 9", false),
         ("let m = import! std.int.prim in m.rem 1 0", false),
-        ("let rec f x = if x #Int== 0 then (import! std.prim).error \"deep\" else 1 #Int+ f (x #Int- 1) in f 300", false),
+        ("rec let f x = if x #Int== 0 then (import! std.prim).error \"deep\" else 1 #Int+ f (x #Int- 1) in f 300", false),
         ("let g y = [y, (import! std.array.prim).index [] 0, y] in let r = { h = g } in r.h 1", false),
-        ("let rec f x = 1 #Int+ f (x #Int+ 1) in f 0", false),
-        ("let a = import! std.array.prim in let rec f x = if x #Int== 0 then a.index [1] 7 else f (x #Int- 1) #Int+ 1 in f 50", false),
+        ("rec let f x = 1 #Int+ f (x #Int+ 1) in f 0", false),
+        ("let a = import! std.array.prim in rec let f x = if x #Int== 0 then a.index [1] 7 else f (x #Int- 1) #Int+ 1 in f 50", false),
     ];
     v.into_iter().map(|(s, b)| (s.to_string(), b)).collect()
 }
@@ -919,18 +952,23 @@ fn programs() -> Vec<(String, String, &'static str)> {
     add("macro:import-missing", "import! std.does.not.exist", "err");
     add("macro:import-not-ident", "import! 1", "err");
     add("macro:unknown", "nosuchmacro! 1", "err");
+    add("import:std.path.prim-before-std.fs", "import! std.path.prim", "any");
+    add("import:std.fs.prim", "import! std.fs.prim", "any");
     for n in [100usize, 1000, 5000] {
-        add(&format!("nesting:parens-{}", n), &format!("{}1{}", "(".repeat(n), ")".repeat(n)), "ret");
-        add(&format!("nesting:infix-chain-{}", n), &format!("1{}", " #Int+ 1".repeat(n)), "ret");
-        add(&format!("nesting:array-{}", n), &format!("{}{}", "[".repeat(n), "]".repeat(n)), "any");
-        add(&format!("nesting:lambda-{}", n), &format!("{}1", "\\x -> ".repeat(n)), "ret");
-        add(&format!("nesting:let-{}", n), &format!("{}x", "let x = 1 in ".repeat(n)), "ret");
-        add(&format!("nesting:app-{}", n), &format!("let f x = x in {}1{}", "f (".repeat(n), ")".repeat(n)), "ret");
+        add("nesting:parens", &format!("{}1{}", "(".repeat(n), ")".repeat(n)), "ret");
+        add("nesting:infix-chain", &format!("1{}", " #Int+ 1".repeat(n)), "ret");
+        add("nesting:let", &format!("{}x", "let x = 1 in ".repeat(n)), "ret");
+        add("nesting:application", &format!("let f x = x in {}1{}", "f (".repeat(n), ")".repeat(n)), "ret");
+        if n <= 1000 {
+            // deeper ones are only slow (super-linear compile time), not wrong
+            add("nesting:array", &format!("{}{}", "[".repeat(n), "]".repeat(n)), "any");
+            add("nesting:lambda", &format!("{}1", "\\x -> ".repeat(n)), "ret");
+        }
     }
     v
 }
 
-const PROBE: &str = "let rec sum n = if n #Int== 0 then 0 else n #Int+ sum (n #Int- 1) in { s = sum 100, t = (import! std.string.prim).append \"ok\" \"!\", u = [1, 2, 3] }";
+const PROBE: &str = "rec let sum n = if n #Int== 0 then 0 else n #Int+ sum (n #Int- 1) in { s = sum 100, t = (import! std.string.prim).append \"ok\" \"!\", u = [1, 2, 3] }";
 
 fn set_stack_limit(vm: &RootedThread, limit: u32) {
     vm.context().set_max_stack_size(limit);
@@ -939,12 +977,10 @@ fn frames(vm: &RootedThread) -> usize {
     vm.context().stacktrace(0).frames.len()
 }
 
-fn warm_up(vm: &RootedThread) {
-    for (p, _) in program_pool() {
-        if p.contains("f (x #Int+ 1) in f 0") {
-            continue;
-        }
-        let _ = eval(vm, &p, false);
+fn warm_up(vm: &RootedThread, pool: &[(String, bool)]) {
+    // every program of the pool once (imports stay loaded: that memory is legitimately kept)
+    for (p, _) in pool {
+        let _ = eval(vm, p, false);
     }
     let _ = eval(vm, PROBE, false);
     vm.collect();
@@ -987,7 +1023,7 @@ fn hist_main(rest: &[String]) {
         let mut verdict = String::from("ok");
         let vm = new_vm(false);
         set_stack_limit(&vm, STACK_LIMIT);
-        warm_up(&vm);
+        warm_up(&vm, &pool);
         let base_mem = vm.allocated_memory();
         let base_frames = frames(&vm);
         let toks: Vec<&str> = line.split_whitespace().collect();
@@ -995,10 +1031,10 @@ fn hist_main(rest: &[String]) {
             // stack reuse: n failing evaluations that die deep in the stack, then a probe that needs
             // most of the (small) stack limit.  Left-over frames or values would add up to an overflow.
             let n: usize = toks[1].parse().unwrap();
-            let deep = "let rec f x = if x #Int== 0 then (import! std.prim).error \"deep\" else 1 #Int+ f (x #Int- 1) in f 150";
+            let deep = "rec let f x = if x #Int== 0 then (import! std.prim).error \"deep\" else 1 #Int+ f (x #Int- 1) in f 150";
             let mut fails = 0;
             for k in 0..n {
-                let (r, _) = eval(&vm, if k % 2 == 0 { deep } else { "let a = import! std.array.prim in let rec f x = if x #Int== 0 then a.index [1] 7 else f (x #Int- 1) #Int+ 1 in f 150" }, false);
+                let (r, _) = eval(&vm, if k % 2 == 0 { deep } else { "let a = import! std.array.prim in rec let f x = if x #Int== 0 then a.index [1] 7 else f (x #Int- 1) #Int+ 1 in f 150" }, false);
                 if r.starts_with("err:vm") {
                     fails += 1;
                 }
@@ -1006,7 +1042,7 @@ fn hist_main(rest: &[String]) {
             if fails != n {
                 verdict = format!("FAIL stack-reuse: only {} of {} deep evaluations failed with a VM error", fails, n);
             }
-            let big = "let rec sum n = if n #Int== 0 then 0 else n #Int+ sum (n #Int- 1) in sum 400";
+            let big = "rec let sum n = if n #Int== 0 then 0 else n #Int+ sum (n #Int- 1) in sum 400";
             let expect = fresh_big(big);
             let (r, d) = eval(&vm, big, false);
             if r != expect {
@@ -1077,13 +1113,13 @@ fn os_programs(tmp: &str) -> Vec<(String, String)> {
     let paths = ["", ".", "/", "a/b.txt", "/nonexistent/c06", "a//b/../c", "\u{e9}\u{20ac}", "..", "a.b.c", "/verif/.cache"];
     for f in ["is_absolute", "is_relative", "has_root", "parent", "ancestors", "file_name", "file_stem", "extension", "components", "exists", "is_file", "is_dir", "metadata", "symlink_metadata", "canonicalize", "read_link", "read_dir"] {
         for p in paths.iter() {
-            v.push((format!("std.path.prim.{}", f), format!("let p = import! std.path.prim in p.{} {}", f, str_lit(p))));
+            v.push((format!("std.path.prim.{}", f), format!("let p = import! std.path in p.{} {}", f, str_lit(p))));
         }
     }
     for f in ["strip_prefix", "starts_with", "ends_with", "join", "with_file_name", "with_extension"] {
         for p in paths.iter().take(7) {
             for q in paths.iter().take(7) {
-                v.push((format!("std.path.prim.{}", f), format!("let p = import! std.path.prim in p.{} {} {}", f, str_lit(p), str_lit(q))));
+                v.push((format!("std.path.prim.{}", f), format!("let p = import! std.path in p.{} {} {}", f, str_lit(p), str_lit(q))));
             }
         }
     }
@@ -1099,18 +1135,18 @@ fn os_programs(tmp: &str) -> Vec<(String, String)> {
         ("std.io.read_file_to_string", format!("let io = import! std.io in io.read_file_to_string {}", str_lit(tmp))),
         ("std.io.read_file_to_string", "let io = import! std.io in io.read_file_to_string \"\"".to_string()),
         ("std.io.open_file", format!("let io = import! std.io in io.open_file {}", str_lit("/nonexistent/c06"))),
-        ("std.io.read_file", format!("let io = import! std.io in do f = io.open_file {} in io.read_file f 0", str_lit(&file))),
-        ("std.io.read_file", format!("let io = import! std.io in do f = io.open_file {} in io.read_file f 5", str_lit(&file))),
-        ("std.io.read_file", format!("let io = import! std.io in do f = io.open_file {} in io.read_file f 1000000", str_lit(&file))),
-        ("std.io.read_file", format!("let io = import! std.io in do f = io.open_file {} in io.read_file f (-1)", str_lit(&file))),
+        ("std.io.read_file", format!("let io @ {{ ? }} = import! std.io in do f = io.open_file {} in io.read_file f 0", str_lit(&file))),
+        ("std.io.read_file", format!("let io @ {{ ? }} = import! std.io in do f = io.open_file {} in io.read_file f 5", str_lit(&file))),
+        ("std.io.read_file", format!("let io @ {{ ? }} = import! std.io in do f = io.open_file {} in io.read_file f 1000000", str_lit(&file))),
+        ("std.io.read_file", format!("let io @ {{ ? }} = import! std.io in do f = io.open_file {} in io.read_file f (-1)", str_lit(&file))),
         ("std.io.run_expr", "let io = import! std.io in io.run_expr \"1 #Int+\"".to_string()),
         ("std.io.run_expr", "let io = import! std.io in io.run_expr \"1 #Int+ 2\"".to_string()),
         ("std.io.load_script", "let io = import! std.io in io.load_script \"c06x\" \"1 +\"".to_string()),
         ("std.io.catch", "let io = import! std.io in io.catch (io.throw \"x\") (\\e -> io.println e)".to_string()),
         ("std.io.throw", "let io = import! std.io in io.throw \"thrown\"".to_string()),
-        ("std.env.get_var", "let e = import! std.env in e.get_var \"C06_DOES_NOT_EXIST\"".to_string()),
-        ("std.env.get_var", "let e = import! std.env in e.get_var \"\"".to_string()),
-        ("std.env.get_var", "let e = import! std.env in e.get_var \"A=B\"".to_string()),
+        ("std.env.get_var", "let e = import! std.env in e.var \"C06_DOES_NOT_EXIST\"".to_string()),
+        ("std.env.get_var", "let e = import! std.env in e.var \"\"".to_string()),
+        ("std.env.get_var", "let e = import! std.env in e.var \"A=B\"".to_string()),
         ("std.random.next_int", "let r = import! std.random in r.thread_rng.next_int".to_string()),
         ("std.random.gen_int_range", "let r = import! std.random in r.thread_rng.gen_int_range 1 10".to_string()),
         ("std.random.gen_int_range", "let r = import! std.random in r.thread_rng.gen_int_range 10 1".to_string()),
@@ -1121,19 +1157,18 @@ fn os_programs(tmp: &str) -> Vec<(String, String)> {
         ("std.random.xor_shift_new", "let r = import! std.random.prim in r.xor_shift_new [1b, 2b, 3b, 4b, 5b, 6b, 7b, 8b, 9b, 10b, 11b, 12b, 13b, 14b, 15b, 16b]".to_string()),
         ("std.regex.new", "let r = import! std.regex in r.new \"(\"".to_string()),
         ("std.regex.new", "let r = import! std.regex in r.new \"a{1000000000}\"".to_string()),
-        ("std.regex.is_match", "let r = import! std.regex in match r.new \"a+\" with | Ok re -> r.is_match re \"caab\" | Err _ -> False".to_string()),
-        ("std.regex.captures", "let r = import! std.regex in match r.new \"(a)|(b)\" with | Ok re -> r.captures re \"b\" | Err _ -> None".to_string()),
-        ("std.regex.find", "let r = import! std.regex in match r.new \"\" with | Ok re -> r.find re \"\u{e9}\" | Err _ -> None".to_string()),
-        ("std.json.de", "let de = import! std.json.de in de.deserialize de.value \"{\"".to_string()),
-        ("std.json.de", "let de = import! std.json.de in de.deserialize de.value \"[1, 2.5, \\\"x\\\", null, {\\\"a\\\": []}]\"".to_string()),
-        ("std.json.de", "let de = import! std.json.de in de.deserialize de.value \"[[[[[[[[[[[[[[[[[[[[[[[[[[[[[[[[[[[[[[[[[[[[[[[[[[[[[[[[[[[[[[[[[[[[[[[[[[[[[[[[[[[[[[[[[[[[[[[[[[[[[[[[[[[[[[[[[[[[[[[[[[[[[[[[[[[[[[[[[[[[[[[[[[[[[[[[\"".to_string()),
+        ("std.regex.is_match", "let r = import! std.regex in\nmatch r.new \"a+\" with\n| Ok re -> r.is_match re \"caab\"\n| Err _ -> False".to_string()),
+        ("std.regex.captures", "let r = import! std.regex in\nmatch r.new \"(a)|(b)\" with\n| Ok re -> r.captures re \"b\"\n| Err _ -> None".to_string()),
+        ("std.regex.find", "let r = import! std.regex in\nmatch r.new \"\" with\n| Ok re -> r.find re \"\u{e9}\"\n| Err _ -> None".to_string()),
+        ("std.json.de", "let de = import! std.json.de in de.deserialize de.value_deserializer \"{\"".to_string()),
+        ("std.json.de", "let de = import! std.json.de in de.deserialize de.value_deserializer \"[1, 2.5, \\\"x\\\", null, {\\\"a\\\": []}]\"".to_string()),
+        ("std.json.de", "let de = import! std.json.de in de.deserialize de.value_deserializer \"[[[[[[[[[[[[[[[[[[[[[[[[[[[[[[[[[[[[[[[[[[[[[[[[[[[[[[[[[[[[[[[[[[[[[[[[[[[[[[[[[[[[[[[[[[[[[[[[[[[[[[[[[[[[[[[[[[[[[[[[[[[[[[[[[[[[[[[[[[[[[[[[[[[[[[[[\"".to_string()),
         ("std.debug.show", "let d = import! std.debug in d.show { a = [1, 2], b = \"x\", c = \\x -> x }".to_string()),
-        ("std.reference", "let r = import! std.reference in do x = r.ref 1 in do _ = r.(<-) x 2 in r.load x".to_string()),
+        ("std.reference", "let { ? } = import! std.io in let r = import! std.reference in do x = r.ref 1 in do _ = r.(<-) x 2 in r.load x".to_string()),
         ("std.lazy", "let l = import! std.lazy in l.force (l.lazy (\\_ -> (import! std.prim).error \"lazy boom\"))".to_string()),
-        ("std.lazy", "let l = import! std.lazy in let rec x = l.lazy (\\_ -> l.force x) in l.force x".to_string()),
-        ("std.channel", "let c = import! std.channel in do { sender, receiver } = c.channel (c.sender) in c.recv receiver".to_string()),
+        ("std.lazy", "let l = import! std.lazy in rec let x = l.lazy (\\_ -> l.force x) in l.force x".to_string()),
         ("std.thread", "let t = import! std.thread in t.yield ()".to_string()),
-        ("std.thread", "let t = import! std.thread in do th = t.new_thread () in t.resume th".to_string()),
+        ("std.thread", "let { ? } = import! std.io in let t = import! std.thread in do th = t.new_thread () in t.resume th".to_string()),
     ] {
         v.push((label.to_string(), src));
     }
@@ -1178,8 +1213,8 @@ fn main() {
     let mut cases: Vec<Case> = vec![];
     let mut sig_lines: Vec<(String, String)> = vec![]; // (model line, impl line)
     let mut uncovered: Vec<String> = vec![];
-    let cap = if thorough { 2500 } else { 150 };
-    let nrand = if thorough { 300 } else { 24 };
+    let cap = if thorough { 1000 } else { 150 };
+    let nrand = if thorough { 150 } else { 24 };
     let mut seen = HashSet::new();
     for e in &table.entries {
         let sig = match sigs.get(&(e.module.clone(), e.name.clone())) {
@@ -1249,18 +1284,36 @@ fn main() {
     {
         let mut f = std::io::BufWriter::new(std::fs::File::create(&osfile).unwrap());
         for (_, s) in &os {
-            writeln!(f, "{}", s.replace('\n', " ")).unwrap();
+            writeln!(f, "{}", s.replace('\n', "\u{1}")).unwrap();
         }
     }
     let os_out = run_isolated(&osfile, os.len(), true, workers, "child", 40);
 
     // ---- single programs: every kind of result value / front-end failure ----
-    let progs = programs();
+    let mut progs: Vec<(String, String, &'static str)> = vec![];
+    // corpus first
+    if let Ok(text) = std::fs::read_to_string("/verif/corpus/C06/programs.txt") {
+        for l in text.lines() {
+            if l.starts_with('#') || l.trim().is_empty() {
+                continue;
+            }
+            let f: Vec<&str> = l.splitn(3, '\t').collect();
+            if f.len() == 3 {
+                let want = match f[1] {
+                    "ret" => "ret",
+                    "err" => "err",
+                    _ => "any",
+                };
+                progs.push((f[0].to_string(), f[2].to_string(), want));
+            }
+        }
+    }
+    progs.extend(programs());
     let progfile = args.out.join("jobs_prog.txt");
     {
         let mut f = std::io::BufWriter::new(std::fs::File::create(&progfile).unwrap());
         for (_, s, _) in &progs {
-            writeln!(f, "{}", s.replace('\n', " ")).unwrap();
+            writeln!(f, "{}", s.replace('\n', "\u{1}")).unwrap();
         }
     }
     let prog_out = run_isolated(&progfile, progs.len(), false, workers, "child", 6);
@@ -1399,14 +1452,31 @@ fn main() {
 
 fn replay(path: &str) {
     let v: serde_json::Value = serde_json::from_str(&std::fs::read_to_string(path).expect("replay file")).expect("json");
-    let src = v["case"]["source"].as_str().expect("case.source").to_string();
-    let prelude = v["case"]["prelude"].as_bool().unwrap_or(false);
     let dir = std::path::PathBuf::from("/verif/.cache/run/c06-replay");
     std::fs::create_dir_all(&dir).unwrap();
+    if let Some(hist) = v["case"]["history"].as_str() {
+        // a history: the programs (if any) become the pool, evaluated in order on one VM
+        let progs: Vec<String> = v["case"]["programs"].as_array().map(|a| a.iter().filter_map(|x| x.as_str().map(|s| s.to_string())).collect()).unwrap_or_default();
+        let line = if hist.starts_with('S') { hist.to_string() } else { (0..progs.len()).map(|i| i.to_string()).collect::<Vec<_>>().join(" ") };
+        let pool = if progs.is_empty() { program_pool() } else { progs.iter().map(|p| (p.clone(), true)).collect() };
+        std::fs::write(dir.join("pool.txt"), pool.iter().map(|(s, b)| format!("{}\t{}\n", if *b { 1 } else { 0 }, s.replace('\n', " "))).collect::<String>()).unwrap();
+        let job = dir.join("jobs_hist.txt");
+        std::fs::write(&job, format!("{}\n", line)).unwrap();
+        let o = run_isolated(&job, 1, false, 1, "hist", 1);
+        println!("history: {}", line);
+        for (i, p) in progs.iter().enumerate() {
+            println!("  program {}: {}", i, p);
+        }
+        println!("impl: {}  {}", o[0].result, o[0].detail);
+        println!("expected: {}", v["expected"].as_str().unwrap_or("?"));
+        return;
+    }
+    let src = v["case"]["source"].as_str().expect("case.source").to_string();
+    let prelude = v["case"]["prelude"].as_bool().unwrap_or(false);
     let job = dir.join("jobs.txt");
-    std::fs::write(&job, format!("{}\n", src.replace('\n', " "))).unwrap();
+    std::fs::write(&job, format!("{}\n", src.replace('\n', "\u{1}"))).unwrap();
     let o = run_isolated(&job, 1, prelude, 1, "child", 1);
     println!("source: {}", src);
     println!("impl: {}  {}", o[0].result, o[0].detail);
-    println!("expected(model): {}", v["expected"].as_str().unwrap_or("?"));
+    println!("expected: {}", v["expected"].as_str().unwrap_or("?"));
 }
